@@ -51,7 +51,7 @@ def wellformed(case):
             k = s["kind"]
             if k.startswith("switch:") and k[7:] not in names:
                 return False
-            if k.startswith("flag:"):
+            if k.startswith(("flag:", "flagcall:")):
                 fname = k.split(":")[1]
                 writers[fname] = writers.get(fname, 0) + 1
         if any(v > 1 for v in writers.values()):
@@ -73,6 +73,11 @@ def build(case):
             elif kind.startswith("switch:"):
                 st_ = lang.SwitchPhase(next_phase=kind[7:], id=s["id"], depends_on=s["deps"],
                                        condition=Comparison(1, "<", 0))
+            elif kind.startswith("flagcall:"):
+                # the flag is assigned by a function-call statement (also an assignment to it)
+                st_ = lang.AssignFunctionCall(id=s["id"], assignees=("<cond>" + kind.split(":")[1],),
+                                              function_id="<builtin>isnan", parameters=(float(k),),
+                                              depends_on=s["deps"])
             elif kind.startswith("flag:"):
                 # "flag:c" -> every such statement prints identically; "flag:c:3" -> distinct expression
                 parts = kind.split(":")
@@ -271,7 +276,23 @@ def all_spaces(quick):
         yield ("C", n), space_C(n)
 
 
+def dense_cases():
+    """Large dense graphs (every stage depends on all earlier ones): the number of dependency *paths* is astronomic,
+    the number of edges is not - verification must still return at once ("never hangs")."""
+    for n in (24, 32, 40):
+        ids = ["d%02d" % i for i in range(n)]
+        stmts = [{"id": ids[i], "deps": ids[:i], "kind": "assign"} for i in range(n)]
+        yield {"initial": "p0", "phases": [phase("p0", "p0", stmts)]}
+        cyc = [dict(s_, deps=list(s_["deps"])) for s_ in stmts]
+        cyc[3]["deps"].append(ids[n - 1])            # one back edge: a cycle through almost everything
+        yield {"initial": "p0", "phases": [phase("p0", "p0", cyc)]}
+        yield {"initial": "p0", "phases": [phase("p0", "p0", list(reversed(stmts)))]}
+
+
 def exhaustive_shard(ctx, quick):
+    if ctx.shard == 0:
+        for case in dense_cases():
+            one(ctx, case, "dense")
     idx = 0
     for tag, gen in all_spaces(quick):
         for case in gen:
@@ -355,6 +376,8 @@ def random_method(draw):
                 kind = "switch:" + draw(st.sampled_from(names + ["missing"]))
             elif r2 in (1, 2):
                 kind = "flag:" + draw(st.sampled_from(["c", "d", "c", "c:1", "c:3"]))
+            elif r2 == 3:
+                kind = "flagcall:" + draw(st.sampled_from(["c", "c", "d"]))
             stmts.append({"id": sid, "deps": sorted(set(deps)), "kind": kind})
         stmts = list(draw(st.permutations(stmts)))
         phases.append(phase(names[i], draw(st.sampled_from(names)), stmts))
